@@ -44,6 +44,9 @@ def configs(draw, d, networks=(0, 0, 0, 1), periodic_ok=True, pools=('none',),
         n_shell=draw(st.sampled_from([1, 1, 3, 10])),
         n_eff=draw(st.sampled_from([0, 50, 200, 500])),
         discard_exploration=draw(st.booleans()))
+    if cfg['n_networks'] > 0:
+        # non-default MLPRegressor keyword (documented neural_network_kwargs)
+        cfg['nn'] = draw(st.sampled_from(['tiny', 'tiny', 'tanh']))
     if periodic_ok and draw(st.integers(0, 3)) == 0:
         cfg['periodic'] = sorted(draw(st.lists(
             st.integers(0, d - 1), min_size=1, max_size=min(d, 2),
@@ -165,8 +168,10 @@ class Lab:
             periodic=None if cfg['periodic'] is None else np.array(
                 cfg['periodic'], dtype=int),
             n_networks=cfg['n_networks'],
-            neural_network_kwargs=dict(NN_MEDIUM if cfg.get('nn') == 'medium'
-                                       else NN_KW),
+            neural_network_kwargs=dict(
+                NN_MEDIUM if cfg.get('nn') == 'medium' else
+                dict(NN_KW, activation='tanh') if cfg.get('nn') == 'tanh'
+                else NN_KW),
             n_batch=cfg['n_batch'], n_like_new_bound=cfg['n_like_new_bound'],
             vectorized=cfg['vectorized'], pass_dict=pr.pass_dict_for(spec),
             pool=self.pool_arg(), seed=cfg['seed'],
